@@ -14,7 +14,7 @@ CHECKS = {
     "C01": (
         "model_checking",
         "explicit-state BFS over the real pipeline builder (canonical state hashing) x exhaustive small inputs; Pandas-vs-SQLite differential oracle, reference interpreter arbitrates disagreements",
-        "Every pipeline reachable in <= 2 builder calls over a ~120-entry step menu (thorough: plus <= 3 calls over a SQL-translation slice) is executed on every multiset of <= 2 (thorough 3) rows of a collision-forcing row alphabet on both the Pandas executor and generated SQL on SQLite; results must be EQ, or differ only by a documented destination convention, or match the exact as-is model of a listed finding.",
+        "Every pipeline reachable in <= 2 builder calls over a ~150-entry step menu (quick: first call from a thinner one-per-shape selection), plus <= 3 (thorough 4) calls over an extend-chain slice, 3 calls over a pruning slice and 4 over a record-conversion slice (thorough: plus <= 2 calls over a SQL-translation slice), is executed on every multiset of <= 2 (thorough 3) rows of a collision-forcing row alphabet on both the Pandas executor and generated SQL on SQLite; results must be EQ, or differ only by a documented destination convention, or match the exact as-is model of a listed finding.",
         PX_NOTE,
         "DESIGN.md 3/C01",
     ),
@@ -42,7 +42,7 @@ CHECKS = {
     "C08": (
         "model_checking",
         "explicit-state BFS over the real pipeline builder x small inputs (incl. empty) x 5 executors; invariant: returned columns == declared column_names",
-        "Every pipeline reachable in <= 2 builder calls (thorough: + column slice to depth 3) is executed on Pandas, Polars eager/lazy, SQLite and PostgreSQL-dialect text on the SQLite engine, on all multisets of <= 2 rows of a 2-row alphabet (empty input included); the returned column set must equal ops.column_names, and the order too after a final select_columns / bare table. No reference model is involved.",
+        "Every pipeline reachable in <= 2 builder calls (thorough: + column slice to depth 2) is executed on Pandas, Polars eager/lazy, SQLite and PostgreSQL-dialect text on the SQLite engine, on all multisets of <= 2 rows of a 2-row alphabet (empty input included) and on inputs carrying an undeclared extra column; the returned column set must equal ops.column_names, and the column order must be the one the last select_columns step asked for (through any tail of row-filtering / sorting steps; states are keyed by that request as well as by the built pipeline). No reference model is involved.",
         "A backend that raises returns no table and is not judged. pgtext@sqlite is not a PostgreSQL server; only column names are read from it.",
         "DESIGN.md 3/C08",
     ),
@@ -112,7 +112,7 @@ CHECKS = {
     "C10": (
         "model_checking",
         "explicit-state BFS over the real pipeline builder x exhaustive small inputs x exhaustive perturbation menu of every unreported column; metamorphic oracle (result unchanged) on Pandas and SQLite, plus narrowed-replay equality",
-        "Every pipeline reachable in <= 2 builder calls over the core menu (thorough: + <= 3 over the SQL-translation slice) whose columns_used() leaves some input column unreported is run on all multisets of <= 2 rows and re-run with the unreported columns replaced by all-null, by each constant of the column's domain, reversed and alternating values (thorough: one column at a time as well); the Pandas and the SQLite result must not change; the same history rebuilt over table descriptions narrowed to the reported columns must give the same result on the restricted inputs.",
+        "Every pipeline reachable in <= 2 builder calls over the core menu (thorough: + <= 2 over the SQL-translation slice; both tiers: + <= 3 over a shared-DAG slice) whose columns_used() leaves some input column unreported is run on all multisets of <= 2 rows and re-run with the unreported columns replaced by all-null, by each constant of the column's domain, reversed and alternating values (thorough: one column at a time as well); the Pandas and the SQLite result must not change; the same history rebuilt over table descriptions narrowed to the reported columns must give the same result on the restricted inputs.",
         "Metamorphic: no reference model. A narrowed rebuild that the builder rejects because a step names an unreported column is counted, not judged.",
         "DESIGN.md 3/C10",
     ),
@@ -126,14 +126,14 @@ CHECKS = {
     "C18": (
         "model_checking",
         "explicit-state BFS over the real pipeline builder x every sequence of input rows (all row orders of every small multiset) x Pandas index variants x executors; metamorphic oracle (same multiset in another order / index gives the same table) plus sortedness and limit-prefix invariants of a final order_rows",
-        "Every state at depth <= 1 over the core menu and <= 2 over an ordering/window slice (thorough: depth <= 2 over the core menu) is evaluated on every sequence of <= 3 rows (all orderings of every multiset; two-table pipelines <= 2 x <= 1 rows) on Pandas (default, reversed, duplicate-label and string indexes), Polars and SQLite: all orderings and re-indexings of one multiset must give the same result multiset (and order-key sequence after a final order_rows), the Pandas result must carry the default index, a final order_rows must be sorted in the declared directions, and with limit n must return the first n order keys of the same pipeline without the limit and only rows of it.",
+        "Every state at depth <= 1 over the core menu and <= 2 over an ordering/window slice (thorough: 4-row alphabet, every index variant on every ordering, lazy frames too) is evaluated on every sequence of <= 3 rows (all orderings of every multiset; two-table pipelines <= 2 x <= 1 rows) on Pandas (default, reversed, duplicate-label and string indexes), Polars and SQLite: all orderings and re-indexings of one multiset must give the same result multiset (and order-key sequence after a final order_rows), the Pandas result must carry the default index, a final order_rows must be sorted in the declared directions, and with limit n must return the first n order keys of the same pipeline without the limit and only rows of it.",
         "Inputs whose answer is undetermined (ties or nulls in a window order, a limit cutting through distinguishable tied rows, under either null placement) are excluded via the reference model's tie detection, as the property's precondition states; null placement itself is not judged.",
         "DESIGN.md 3/C18",
     ),
     "C19": (
         "model_checking",
         "explicit-state BFS over the real pipeline builder x exhaustive small inputs x index variants x entry points x frame kinds; deep before/after snapshot invariant and run-twice equality",
-        "Every core-menu state at depth <= 1 and every state at depth <= 2 (quick: over a one-entry-per-operator slice; thorough: the core menu) is evaluated through eval, transform, ex (captured tables), frame >> ops and act_on on all multisets of <= 2 rows as Pandas frames (default, reversed, duplicate-label and string index with a named index; with an extra unused column), Polars eager and Polars lazy frames; a bit-exact snapshot of every caller frame (values, dtypes, columns, index values and name, object identity) must be unchanged afterwards and a second evaluation must return the identical table.",
+        "Every core-menu state at depth <= 1 and every state at depth <= 2 (over a one-entry-per-operator slice; thorough: all inputs and every index variant on every entry point) is evaluated through eval, transform, ex (captured tables), frame >> ops and act_on on all multisets of <= 2 rows as Pandas frames (default, reversed, duplicate-label and string index with a named index; with an extra unused column), Polars eager and Polars lazy frames; a bit-exact snapshot of every caller frame (values, dtypes, columns, index values and name, object identity) must be unchanged afterwards and a second evaluation must return the identical table.",
         "Snapshots compare cells by repr; attrs/flags ignored. Multi-table pipelines only through eval.",
         "DESIGN.md 3/C19",
     ),
@@ -157,7 +157,7 @@ CHECKS["C27"] = (
 CHECKS["C04"] = (
     "model_checking",
     "explicit-state BFS over the real pipeline builder on a shared-sub-DAG slice x the product of SQL option settings x two dialect texts x exhaustive small inputs; metamorphic oracle (every option setting returns the default setting's table on the same engine)",
-    "Every state at depth <= 3 (thorough 4) of a DAG slice - plain, windowed and ordered extends creating / reading / overwriting each other's columns (the SQL-level extend merge), literal-bearing extends, selections and projections, and joins / concatenations whose right side is the state's own earlier prefix as the same object and as an equal rebuilt copy - is translated under every combination of use_with x use_cte_elim x annotate x initial_commas x extend merging (quick: with the default indent plus four settings with other indents; thorough: x three indent strings, 96 settings) for the SQLite dialect and for the PostgreSQL dialect; every distinct text is executed on the SQLite engine on all multisets of <= 2 rows and must return the default setting's table; no setting may fail to translate or execute when the default succeeds.",
+    "Every state at depth <= 3 of a DAG slice (quick: a thinner menu; thorough: the rich menu) - plain, windowed and ordered extends creating / reading / overwriting each other's columns (the SQL-level extend merge), literal-bearing extends, selections and projections, and joins / concatenations whose right side is the state's own earlier prefix as the same object and as an equal rebuilt copy - is translated under every combination of use_with x use_cte_elim x annotate x initial_commas x extend merging (quick: with the default indent plus four settings with other indents; thorough: x three indent strings, 96 settings) for the SQLite dialect and for the PostgreSQL dialect; every distinct text is executed on the SQLite engine on all multisets of <= 2 rows and must return the default setting's table; no setting may fail to translate or execute when the default succeeds.",
     "PostgreSQL-dialect text is executed on the SQLite engine (the only way CTE elimination can be executed here; it is not a PostgreSQL server); all variants of a dialect run on the same engine so engine semantics cancel. No reference model.",
     "DESIGN.md 3/C04",
 )
